@@ -145,6 +145,18 @@ func (h *hist) relagWake() {
 			h.w.Violation("C05", "pending-requests-or-signatures-changed-by-fast-forward", fmt.Sprintf("node=%d internal-pool %d -> %d self-signatures %d -> %d",
 				a.ID, ipoolBefore, a.Core.InternalTransactionPoolLen(), sigsBefore, a.Core.SelfBlockSignaturesLen()))
 		}
+		if h.rng.Intn(2) == 0 {
+			// the first sync after the reset is truncated: when it carries no event of the peer, the node's first event
+			// has no other-parent and gets a round below the reset's lower bound (it must still be received and committed)
+			others := []*hx.Node{}
+			for _, o := range h.nodes {
+				if o != a && !o.Silent {
+					others = append(others, o)
+				}
+			}
+			h.pull(a, others[h.rng.Intn(len(others))], h.rng.Intn(3), false)
+			h.actions["relag-truncated-first-sync"]++
+		}
 	}
 }
 
